@@ -74,7 +74,7 @@ def make_class(endogenous, check=None, exogenous=('X',), lags=0, leads=0, bases=
             return t + len(self.span) if t < 0 else t
 
         def _cells(self, t):
-            return {nm: float(self.__dict__['_' + nm][t]) for nm in self.ENDOGENOUS + self.EXOGENOUS}
+            return {nm: float(self.__dict__['_' + nm][t]) for nm in self.__dict__['names']}
 
         def solve_t_before(self, t, *args, **kwargs):
             self.__dict__['_log'].append(('before', self._norm(t), kwargs.get('iteration')))
